@@ -85,7 +85,34 @@ def del_path(doc, path):
 
 
 def json_positions(fmt, doc):
-    """yield (label, path, kind or None, explicit values or None)"""
+    """yield (label, path, kind or None, explicit values or None): the fixed corruption table, then - for every position that has
+    a documented domain - values BORROWED from other places of the same document that use the same key name (a release version
+    as header version, a variant id as compose id, ...): valid where they stand, out of domain here"""
+    by_key = {}
+
+    def collect(node):
+        if isinstance(node, dict):
+            for k, v in node.items():
+                if isinstance(v, str):
+                    by_key.setdefault(k, set()).add(v)
+                collect(v)
+        elif isinstance(node, list):
+            for v in node:
+                collect(v)
+    collect(doc)
+    for label, path, kind, values in _json_positions(fmt, doc):
+        yield label, path, kind, values
+        if kind is not None and isinstance(path[-1], str):
+            here = get_path(doc, path)
+            borrowed = [v for v in sorted(by_key.get(path[-1], ())) if v != here and not VT.in_domain(kind, v)][:3]
+            if borrowed:
+                yield label + ":borrowed", path, kind, borrowed
+    rel = doc["payload"].get("release", {}).get("version")
+    if isinstance(rel, str) and rel.count(".") != 1:
+        yield "header.version:borrowed-release-version", ["header", "version"], None, [rel]
+
+
+def _json_positions(fmt, doc):
     pay = doc["payload"]
     for f in ("id", "type", "date", "respin"):
         yield "compose." + f, ["payload", "compose", f], "compose." + f, None
@@ -172,6 +199,7 @@ def load_outcome(fmt, text, path=None, kind=None):
     import io
     _warm_up(fmt)
     obj = new_obj(fmt)
+    call(lambda: (obj.header.version_tuple, str(obj), repr(obj.header)))       # a caller may look at a new reader before using it
     r = call(obj.loads, text)
     via = "loads"
     if r[0] != "ok":
